@@ -78,6 +78,22 @@ def run_history(size, history, res=None):
     return None
 
 
+def coexisting_results(res):
+    """every Connection.execute returns a result of its own: executing another statement on the connection leaves the rows,
+    description, rowcount and position of an earlier result alone"""
+    conn = make_conn(t=([('x', int)], [(i,) for i in range(10)]))
+    res.case('coexisting-results')
+    a = conn.execute(parsed('SELECT x, x + 1 AS y FROM #t LIMIT 4'))
+    first = a.fetchone()
+    b = conn.execute(parsed('SELECT x + 2 AS z FROM #t LIMIT 2'))
+    c = conn.cursor()
+    c.execute(parsed('SELECT x FROM #t LIMIT 1'))
+    obs = (first, [d.name for d in a.description], a.rowcount, a.rownumber, a.fetchall(), [d.name for d in b.description], b.fetchall(), b.rowcount)
+    exp = ((0, 1), ['x', 'y'], 4, 1, [(1, 2), (2, 3), (3, 4)], ['z'], [(2,), (3,)], 2)
+    if obs != exp or a is b:
+        res.violation('h10:coexisting-results', 'results obtained from Connection.execute are independent cursors', {'statements': 3}, obs, exp)
+
+
 def _one(item):
     size, hist = item
     try:
@@ -101,6 +117,7 @@ def run(tier, seed):
     for _ in range(300 if tier == 'quick' else 3000):
         hist = tuple(rng.choice(OPS) for _ in range(rng.randint(4, 12)))
         items.append((rng.randint(0, 6), hist))
+    coexisting_results(res)
     for (size, hist), bad in zip(items, pmap(_one, items)):
         res.case((size, hist), {'result_size': size, 'history': [list(map(str, h)) for h in hist]})
         if bad:
